@@ -760,6 +760,11 @@ func handleBitwise(left, right interface{}, operator token.Token) interface{} {
 		return nil
 	}
 
+	if (operator.Type == token.LEFT_SHIFT || operator.Type == token.RIGHT_SHIFT) && rightInt < 0 {
+		utils.RuntimeError(operator, "Shift count must not be negative.")
+		return nil
+	}
+
 	switch operator.Type {
 	case token.AND:
 		return leftInt & rightInt
